@@ -11,7 +11,7 @@ import (
 func DebugRace() {
 	for name, body := range map[string]func() (string, string){
 		"yield-yield": wgMisuse,
-		"park": wgMisusePark,
+		"park":        wgMisusePark,
 		"park-noclose": func() (string, string) {
 			p := &poolLike{ch: make(chan int, 1)}
 			var all sync.WaitGroup
